@@ -50,7 +50,9 @@ type desc struct {
 	// stress
 	NConn int    `json:"nconn,omitempty"`
 	Entry string `json:"entry,omitempty"` // serve | serveconn
-	Seed  int64  `json:"seed,omitempty"`
+	// stale
+	Variant string `json:"variant,omitempty"` // direct (the wrapper is closed as closeIdleConns would) | shutdown (by a real Shutdown)
+	Seed    int64  `json:"seed,omitempty"`
 }
 
 // ---- addresses -------------------------------------------------------------------------------------
@@ -110,6 +112,7 @@ type sconn struct {
 	out     []byte
 	onClose func()
 	blocked bool // a Read is parked waiting for input
+	hold    bool // a parked Read does not notice Close until released (a goroutine that is slow to be scheduled)
 }
 
 func newConn(id int, a net.Addr) *sconn {
@@ -135,7 +138,7 @@ func (c *sconn) setEOF() {
 func (c *sconn) Read(p []byte) (int, error) {
 	c.mu.Lock()
 	defer c.mu.Unlock()
-	for len(c.in) == 0 && !c.eof && !c.closed {
+	for (len(c.in) == 0 && !c.eof && !c.closed) || (c.hold && c.closed) {
 		c.blocked = true
 		c.cond.Wait()
 	}
@@ -179,6 +182,13 @@ func (c *sconn) isClosed() bool {
 	c.mu.Lock()
 	defer c.mu.Unlock()
 	return c.closed
+}
+
+func (c *sconn) setHold(h bool) {
+	c.mu.Lock()
+	c.hold = h
+	c.cond.Broadcast()
+	c.mu.Unlock()
 }
 
 func (c *sconn) readBlocked() bool {
@@ -1062,6 +1072,135 @@ func runStress(d desc) hlib.Case {
 	return hlib.Case{Coq: coq, Sig: fmt.Sprintf("stress-%s-c%d-m%d-rej%v", d.Entry, d.Conc, d.MaxIP, nrej > 0), Kind: "stress-" + d.Entry, Size: d.NConn}
 }
 
+// ---- stale: a Close through a recycled perIPConn wrapper ---------------------------------------------------------
+
+const staleKey = "peripconn-stale-close-hits-recycled-wrapper"
+
+func runStale(d desc) hlib.Case {
+	old := runtime.GOMAXPROCS(1) // one P: sync.Pool.Get returns what the last Put stored
+	defer runtime.GOMAXPROCS(old)
+	type hc struct {
+		enter chan net.Conn
+		exit  chan struct{}
+		cmd   chan int
+	}
+	hs := map[string]*hc{"X": {make(chan net.Conn, 4), make(chan struct{}, 4), make(chan int, 1)}, "Y": {make(chan net.Conn, 4), make(chan struct{}, 4), make(chan int, 1)}}
+	s := newServer(desc{Conc: 8, MaxIP: 4}, func(ctx *fasthttp.RequestCtx) {
+		h := hs[string(ctx.Path()[1:])]
+		h.enter <- ctx.Conn()
+		if <-h.cmd == cmdFinish {
+			ctx.SetConnectionClose()
+		}
+		h.exit <- struct{}{}
+	})
+	ax, ay := addrs[0], addrs[2]
+	x, y := newConn(0, ax.addr), newConn(1, ay.addr)
+	x.feed("GET /X HTTP/1.1\r\nHost: h\r\n\r\n")
+	y.feed("GET /Y HTTP/1.1\r\nHost: h\r\n\r\n")
+	stuck := false
+	wait := func(ch <-chan struct{}) {
+		select {
+		case <-ch:
+		case <-time.After(waitLimit):
+			stuck = true
+		}
+	}
+	waitConn := func(ch <-chan net.Conn) net.Conn {
+		select {
+		case c := <-ch:
+			return c
+		case <-time.After(waitLimit):
+			stuck = true
+			return nil
+		}
+	}
+	xdone := make(chan struct{})
+	var ln *flistener
+	var serveDone chan error
+	if d.Variant == "shutdown" {
+		ln = newListener()
+		serveDone = make(chan error, 1)
+		go func() { serveDone <- s.Serve(ln) }()
+		waitFor(func() bool { return ln.waiting.Load() == 1 })
+		ln.ch <- x
+		go func() { waitFor(x.isClosed); waitFor(func() bool { return parkedWorkers() == 0 }); close(xdone) }()
+	} else {
+		go func() { s.ServeConn(x); close(xdone) }()
+	}
+	// connection 0 answers one request keep-alive and waits for the next one; its goroutine will notice a Close late
+	wx := waitConn(hs["X"].enter)
+	hs["X"].cmd <- cmdNext
+	wait(hs["X"].exit)
+	if !waitFor(x.readBlocked) {
+		stuck = true
+	}
+	x.setHold(true)
+	// a third party closes the connection object of connection 0
+	shutdownDone := make(chan error, 1)
+	if d.Variant == "shutdown" {
+		go func() { shutdownDone <- s.Shutdown() }()
+	} else if wx != nil {
+		wx.Close()
+	}
+	if !waitFor(x.isClosed) {
+		stuck = true
+	}
+	// connection 1 arrives through ServeConn and is served
+	ydone := make(chan string, 1)
+	go func() {
+		defer func() {
+			if e := recover(); e != nil {
+				ydone <- "panic"
+			}
+		}()
+		s.ServeConn(y)
+		ydone <- "ok"
+	}()
+	wy := waitConn(hs["Y"].enter)
+	recycled := wx != nil && wy != nil && wx == wy
+	// the goroutine of connection 0 finally sees the closed connection, leaves its loop and closes its connection object
+	x.setHold(false)
+	if d.Variant == "shutdown" {
+		// the worker goroutine of connection 0 ends its run with c.Close(); wait until it has exited (pool stopped)
+		waitFor(func() bool { return y.isClosed() || parkedWorkers() == 0 })
+		time.Sleep(2 * time.Millisecond)
+	} else {
+		wait(xdone)
+	}
+	victim := y.isClosed() // nobody closed connection 1, its handler is still running
+	after := sortedIPs(fasthttp.VerifPerIPCounts(s))
+	// let connection 1 end (if its wrapper was emptied under its feet the response write panics; recovered above)
+	hs["Y"].cmd <- cmdFinish
+	wait(hs["Y"].exit)
+	var yres string
+	select {
+	case yres = <-ydone:
+	case <-time.After(waitLimit):
+		yres = "stuck"
+		stuck = true
+	}
+	if d.Variant == "shutdown" {
+		select {
+		case <-shutdownDone:
+		case <-time.After(waitLimit):
+			stuck = true
+		}
+		ln.Close()
+	}
+	x.setEOF()
+	y.Close()
+	coq := fmt.Sprintf("(CStale %s %s %s %s %s)", hlib.Bool(recycled), hlib.Bool(victim), hlib.N(uint64(ax.ip)), hlib.N(uint64(ay.ip)), after)
+	key := ""
+	if recycled {
+		key = staleKey
+	}
+	kind := fmt.Sprintf("stale-%s-recycled=%v-victim=%v-y=%s", d.Variant, recycled, victim, yres)
+	if stuck {
+		kind += "-stuck"
+	}
+	return hlib.Case{Coq: coq, Key: key, Sig: kind, Kind: kind, Size: 4}
+}
+
 // ---- generation ---------------------------------------------------------------------------------------------------
 
 func genReplay(r *rand.Rand) desc {
@@ -1186,6 +1325,9 @@ func corpus() []desc {
 		{Mode: "replay", Conc: 2, MaxIP: 1, EndStop: 1, Ops: ops("servestart accept:0 idle:0 closetwice:0 accept:0 idle:0 eof:0 accept:0 idle:0 userclose:0 accept:0 finish:0")},
 		// workers are reused after release, and exit when their Serve has returned
 		{Mode: "replay", Conc: 2, MaxIP: 0, EndStop: 1, Ops: ops("servestart accept:0 accept:1 accept:2 finish:1 accept:2 servestop:0 finish:0 finish:0")},
+		// FINDING: a Close through a reference to a recycled perIPConn wrapper closes somebody else's connection
+		{Mode: "stale", Variant: "direct"},
+		{Mode: "stale", Variant: "shutdown"},
 		{Mode: "stress", Conc: 3, MaxIP: 2, NConn: 64, Entry: "serve", Seed: 11},
 		{Mode: "stress", Conc: 3, MaxIP: 2, Keep: true, NConn: 64, Entry: "serveconn", Seed: 12},
 		{Mode: "stress", Conc: 2, MaxIP: 0, NConn: 64, Entry: "serve", Seed: 13},
@@ -1196,6 +1338,8 @@ func run(d desc) hlib.Case {
 	switch d.Mode {
 	case "stress":
 		return runStress(d)
+	case "stale":
+		return runStale(d)
 	default:
 		return runReplay(d)
 	}
